@@ -89,6 +89,8 @@ class Ctx:
         self.units_log = []
         self.selftest_log = []
         self._fn_seen = set()
+        self.pattern_default = "sse2"
+        self.inst_default = "sse2"
 
     @property
     def thorough(self):
@@ -114,12 +116,14 @@ class Ctx:
                                "export_s": round(time.time() - t0, 2)})
         return m
 
-    def pattern(self, config="sse2"):
+    def pattern(self, config=None):
         """all library headers, uninstantiated definitions only"""
+        config = config or self.pattern_default
         return self.unit("drivers/all_headers.cpp", config=config, inst=False, pattern=True)
 
-    def inst(self, config="sse2", driver="drivers/inst.cpp"):
+    def inst(self, config=None, driver="drivers/inst.cpp"):
         """instantiation view: the API-use driver for one character width / SIMD configuration"""
+        config = config or self.inst_default
         return self.unit(driver, config=config, inst=True, pattern=False)
 
     def note_fn(self, fn):
